@@ -763,6 +763,89 @@ for _c, _vals in _FINFO.items():
     lib.OPAQUE_ATTRS[_c] = {k_: (lambda I, st, base, v_=v_: v_) for k_, v_ in _vals.items()}
 lib.LIB["np.finfo"] = np_finfo
 
+# ------------------------------------------------------------------------------------------------ iterators
+
+class IsliceV:
+    """itertools.islice(it, k): the next k items of the iterator (consumed when iterated)"""
+
+    def __init__(self, it, k):
+        self.it, self.k = it, k
+
+
+def it_islice(I, st, args, kw, node):
+    used("itertools.islice(it, k) consumed by list.extend: k successive next(it) calls, appended in order")
+    if len(args) != 2:
+        raise Unsupported("itertools.islice(it, start, stop[, step])")
+    return IsliceV(args[0], args[1])
+
+
+def b_next(I, st, args, kw, node):
+    """next(it): it.__next__() through its contract"""
+    import ast as _ast
+    (it,) = args
+    call = _ast.Call(func=_ast.Attribute(value=_ast.Name(id="_next_it", ctx=_ast.Load()), attr="__next__", ctx=_ast.Load()),
+                     args=[], keywords=[])
+    _ast.fix_missing_locations(call)
+    saved = st.env.get("_next_it")
+    st.env["_next_it"] = it
+    try:
+        outs = I.call_outcomes(call, st)
+        normal = [o for o in outs if o[2] is None]
+        if len(normal) != 1 or len(outs) != 1:
+            raise Unsupported("next(it) whose __next__ may raise or fork")
+        s2, val, _ = normal[0]
+        if s2 is not st:
+            st.env, st.heap, st.pc, st.ghost, st.facts, st.trace = s2.env, s2.heap, s2.pc, s2.ghost, s2.facts, s2.trace
+        return val
+    finally:
+        if saved is None:
+            st.env.pop("_next_it", None)
+        else:
+            st.env["_next_it"] = saved
+
+
+def m_extend(I, st, recv, args, kw, node):
+    """lst.extend(x): a sequence is appended; an islice of an iterator is the LOOP  for _ in range(k): lst.append(next(it))
+    cut by the sidecar invariant registered for it (loop id "extend<n>")"""
+    import ast as _ast
+    (x,) = args
+    if not isinstance(x, IsliceV):
+        b = st.alloc(I.arr_of(x, st), "arr") if not isinstance(x, lib.Ref) else x
+        out = lib.list_concat(I, st, recv, b)
+        st.heap[recv.rid] = st.heap[out.rid]
+        return lib.NONE
+    fr = I.frame
+    fr._n_extend = getattr(fr, "_n_extend", 0) + 1 if not I.dry else getattr(fr, "_n_extend", 1)
+    lid = f"extend{max(fr._n_extend, 1)}"
+    st.env["_ext_list"], st.env["_ext_it"], st.env["_ext_k"] = recv, x.it, x.k
+    body = _ast.Expr(value=_ast.Call(
+        func=_ast.Attribute(value=_ast.Name(id="_ext_list", ctx=_ast.Load()), attr="append", ctx=_ast.Load()),
+        args=[_ast.Call(func=_ast.Name(id="next", ctx=_ast.Load()), args=[_ast.Name(id="_ext_it", ctx=_ast.Load())], keywords=[])],
+        keywords=[]))
+    loop = _ast.For(target=_ast.Name(id="_ext_j", ctx=_ast.Store()),
+                    iter=_ast.Call(func=_ast.Name(id="range", ctx=_ast.Load()), args=[_ast.Name(id="_ext_k", ctx=_ast.Load())],
+                                   keywords=[]), body=[body], orelse=[])
+    _ast.copy_location(loop, node)
+    _ast.fix_missing_locations(loop)
+    fr.loop_ids[id(loop)] = lid
+    fr._comp_loops = getattr(fr, "_comp_loops", [])
+    fr._comp_loops.append(loop)
+    outs = I.x_For(loop, st)
+    res = []
+    for o in outs:
+        if o.kind == "normal":
+            res.append((o.state, lib.NONE, None))
+        elif o.kind == "raise":
+            res.append((o.state, None, o.value))
+        else:
+            raise Unsupported("extend(islice(...)) with a non-local exit")
+    return res
+
+
+lib.LIB["itertools.islice"] = it_islice
+lib.BUILTIN_FUNCS["next"] = b_next
+lib.VALUE_METHODS["extend"] = m_extend
+
 # ------------------------------------------------------------------------------------------------ registration
 
 lib.LIB.update({
